@@ -23,12 +23,17 @@ def load_program(mir_path, srcroot, repo='/repo', cache_dir=None):
     if cache_dir:
         cp = os.path.join(cache_dir, 'mir-%s.pickle' % h)
         if os.path.exists(cp) and os.path.getmtime(cp) > os.path.getmtime(os.path.join(HERE, 'mirparse.py')):
-            mir = pickle.load(open(cp, 'rb'))
+            try:
+                mir = pickle.load(open(cp, 'rb'))
+            except Exception:
+                mir = None
     if mir is None:
         mir = mirparse.parse_mir(text)
         if cache_dir:
             os.makedirs(cache_dir, exist_ok=True)
-            pickle.dump(mir, open(cp, 'wb'))
+            tmp = cp + '.%d.tmp' % os.getpid()
+            pickle.dump(mir, open(tmp, 'wb'))
+            os.replace(tmp, cp)
     defs = rustdefs.load_defs(repo)
     # log crate enums used by the `debug!` expansion
     defs['Level'] = rustdefs.EnumDef('Level', [(n, [], 'unit') for n in ('Error', 'Warn', 'Info', 'Debug', 'Trace')], [])
